@@ -125,6 +125,9 @@ type RTCase struct {
 	Charset string `json:"charset"` // primary name in the table ("" = no hint)
 	Name    string `json:"name"`    // the name / alias given as hint
 	Text    string `json:"text"`
+	// ReadHint, when set, is a decode-side CHARACTER_SET hint naming ANOTHER charset: the
+	// designator in the symbol decides, the hint only applies to un-designated segments
+	ReadHint string `json:"read_hint,omitempty"`
 }
 
 func isFormat(err error) bool {
@@ -170,6 +173,17 @@ func checkRT(raw json.RawMessage) error {
 	}
 	if set == nil {
 		return nil
+	}
+	if c.ReadHint != "" {
+		bmp2, _ := gozxing.NewBinaryBitmapFromImage(bm)
+		r2, err := qrcode.NewQRCodeReader().Decode(bmp2, map[gozxing.DecodeHintType]interface{}{
+			gozxing.DecodeHintType_PURE_BARCODE: true, gozxing.DecodeHintType_CHARACTER_SET: c.ReadHint})
+		if err != nil {
+			return fmt.Errorf("read with decode hint CHARACTER_SET=%q failed: %v [%s]", c.ReadHint, err, desc)
+		}
+		if r2.GetText() != c.Text {
+			return fmt.Errorf("decoded %q when read with decode hint CHARACTER_SET=%q: the hint overrode the symbol's designator [%s]", clip(r2.GetText()), c.ReadHint, desc)
+		}
 	}
 	rawBytes := res.GetRawBytes()
 	if len(rawBytes) < 2 {
@@ -492,13 +506,16 @@ func TestCheck(t *testing.T) {
 						}
 						text := "a" + string(rep[off:end])
 						cs := RTCase{Charset: set.name, Name: name, Text: text}
+						if other := charsets[(ci+1+off/40)%len(charsets)].name; other != set.name {
+							cs.ReadHint = other
+						}
 						nonASCII := false
 						for _, r := range text {
 							if r >= 0x80 {
 								nonASCII = true
 							}
 						}
-						c.Note("charset_roundtrip", "charset="+set.name+fmt.Sprintf(";alias=%v", ni > 0), nonASCII, hx.HashS(name, text), func() any { return cs })
+						c.Note("charset_roundtrip", "charset="+set.name+fmt.Sprintf(";alias=%v;conflicting_read_hint=%v", ni > 0, cs.ReadHint != ""), nonASCII, hx.HashS(name, text), func() any { return cs })
 						if !c.Enum("charset_roundtrip", "roundtrip", cs, nil) {
 							break
 						}
@@ -507,6 +524,9 @@ func TestCheck(t *testing.T) {
 					rng := hx.NewRng(c.Seed("mb-"+name, 0))
 					for k := 0; k < c.N(25, 400); k++ {
 						cs := RTCase{Charset: set.name, Name: name, Text: multiByteText(set, rng, 1+rng.Intn(30))}
+						if other := charsets[rng.Intn(len(charsets))].name; other != set.name && k%2 == 0 {
+							cs.ReadHint = other
+						}
 						c.Note("charset_roundtrip", "charset="+set.name+fmt.Sprintf(";alias=%v;multibyte", ni > 0), true, hx.HashS(name, cs.Text), func() any { return cs })
 						if !c.Enum("charset_roundtrip", "roundtrip", cs, nil) {
 							break
